@@ -65,6 +65,11 @@ CLAIMED = {
         "Static: on every path of add_note a note is stored only after comparing unequal (pitch equality) to every stored note and the list is sorted again before returning, no other method writes self.notes outside the enumerated writers => sorted and duplicate-free after every add/remove by induction; bare names get octave 4 when empty, else the top note's octave (+1 exactly when the candidate would lie below the top note); add_notes/remove_notes/+/- dispatch each input form to the right single-note calls; removal by name keeps exactly the notes whose name differs or whose octave differs when one is given, removal by Note is by pitch; the shorthand constructors empty the container first and add the core result; _consonance_test visits every unordered pair once and stops at the first failure, the four predicates bind the right core predicate and flag; len/in/[]/== follow the content.",
         "The invariant over arbitrary histories is an induction over the checked writers, not an exploration. Trusted: CPython ast, abstract evaluator (variants/c12.py), C10 (Note ordering/equality by int()).",
         "DESIGN.md section 2, C12"),
+    "C13": (
+        "abstract interpretation of Bar on symbolic rational beat/length/value: path-wise effect check of place_notes (accept/refuse), algebraic inspection of the accepting comparison (operands, unbounded escape, tolerance window), inverse check of remove_last_entry, formula checks of the derived quantities, slot-writer checks",
+        "Static: an accepted placement appends exactly [beat before, value, normalised content] and advances the beat by exactly 1/value (so start beats are prefix sums), a refused one changes nothing and returns False; the gate is 'beat + 1/value <= length' up to a tolerance between 1e-12 and 1e-5 (above float drift, below the smallest gap between distinct totals, so it decides like exact rational arithmetic) or 'length == 0'; remove_last_entry subtracts 1/value of the last entry and drops exactly it; set_meter stores (count, unit) and count/unit for valid units, (0,0) -> 0.0, else MeterFormatError; space_left/value_left/'+'/is_full/__setitem__/place_notes_at/empty match their definitions.",
+        "Exactness of acceptance is decided through the tolerance window (assumes < ~10^5 entries per bar), not by exploring histories. Trusted: CPython ast, abstract evaluator + rational functions (variants/c13.py), C09.",
+        "DESIGN.md section 2, C13"),
     "C06": (
         "offset-domain abstract interpretation of every chord builder (interval constructors summarised by their C02 post-condition) against a meaning-keyed chord-theory oracle; table agreement; abstract evaluation of the shorthand parser on root shapes x keys, aliases, slash, polychord, NC, list and malformed classes",
         "Static: each of the shorthand builders (incl. the lambda) yields, for 7 root letters x arbitrary accidentals, exactly the (letter, semitone) list its meaning prescribes; chord_shorthand and chord_shorthand_meaning have equal key sets; from_shorthand maps every key, every min/mi/-/maj/ma alias spelling, slash basses, polychords, NC and list input to the right builder result and rejects unknown suffixes / bad roots / bad basses with the documented errors.",
